@@ -106,8 +106,9 @@ def class_meta(repo):
     for m in repo.modules.values():
         for cn in m.classes:
             ids[eng.class_id(cn)] = cn
-            sl = repo.all_slots(cn, m.name)
-            slots[cn] = sorted(sl) if sl is not None else []
+            # every attribute an instance carries after its own constructor (slots along the MRO + `self.X =` targets):
+            # the replayed object must be a well-formed instance, or the replay "reproduces" failures of its own making
+            slots[cn] = sorted(repo.instance_attrs(cn, m.name))
             modules[cn] = m.name
     return {'class_ids': ids, 'slots': slots, 'field_types': schema.FIELDS, 'modules': modules}
 
@@ -125,9 +126,13 @@ def finding_matches(f, prop, fn_key, group, info=None):
         return False
     if f.get('property') != prop:
         return False
-    if f.get('function') and f['function'] != '%s:%s' % fn_key:
+    # a finding about a proof obligation names the function and the obligation; findings keyed by a harness witness
+    # (bounded_key) never excuse a failed obligation
+    if not f.get('function') or not f.get('group'):
         return False
-    if f.get('group') and f['group'] != '%s/%s' % tuple(group):
+    if f['function'] != '%s:%s' % fn_key:
+        return False
+    if f['group'] != '%s/%s' % tuple(group):
         return False
     return True
 
@@ -373,6 +378,11 @@ def summarise(prop, tier, seed, fres, jobs, by_id, wall, extra_bounded=None):
                     cur.setdefault('%s:%s' % fr['key'], []).append(g)
             for g in fr.get('trivial', {}):
                 cur.setdefault('%s:%s' % fr['key'], []).append(g)
+            # the clause only_raises(...) as a whole: discharged when no path of the function lets another exception out
+            # (its instances are generated per escaping path, so a change that opens a new path makes a *new* instance)
+            if REGISTRY[fr['key']].only_raises_ is not None and not fr['problems'] and \
+                    all(all(oks) for g, oks in groups.items() if g.startswith('exc/only_raises:')):
+                cur.setdefault('%s:%s' % fr['key'], []).append('exc/only_raises')
         baseline.setdefault(prop, {})
         baseline[prop] = {k: sorted(set(v)) for k, v in cur.items()}
         with open(bpath, 'w') as f:
@@ -413,6 +423,8 @@ def summarise(prop, tier, seed, fres, jobs, by_id, wall, extra_bounded=None):
                 known_lines.append('KNOWN-FINDING: property=%s %s' % (prop, f_['text']))
             continue
         in_base = '/'.join(g) in base_groups.get('%s:%s' % fr['key'], [])
+        if g[0] == 'exc' and g[1].startswith('only_raises:'):
+            in_base = in_base or 'exc/only_raises' in base_groups.get('%s:%s' % fr['key'], [])
         if not rep.get('reproduced') and not in_base:
             # never discharged on the pinned tree either: an undecided obligation, not a violation
             undecided.append({'function': '%s:%s' % fr['key'], 'why': 'refuted-but-not-in-baseline-and-not-replayed',
